@@ -65,6 +65,7 @@ func runC01(r *oblig.Report) {
 	a.Classify("R3.1")
 	a.OrderCalls("R3.1", pfs)
 	e3order.SelfTest(r)
+	noPackageState(c.P, r, fs)
 }
 
 func runC02(r *oblig.Report) {
@@ -105,6 +106,10 @@ func runC02(r *oblig.Report) {
 	e1variants.Consumers(c.P, r, "R1.1", append(append([]e1variants.Consumer{}, printerConsumers...),
 		e1variants.Consumer{Pkg: "utils", Func: "IsRelationAssignable", Message: "Userset", Required: []string{"This", "Union", "Intersection", "Difference"}}))
 	e2own.ArgPurity(c.P, r, "R2.1", entry, c.Reach(c.Entries("transformer.TransformJSONProtoToDSL")))
+	// nested operators keep their parentheses (shared with C01): without them the output re-parses to another model
+	r.Rule("C01.3", "instance-table", "nested operators are always printed inside parentheses", 6)
+	e5path.NestedInParens(c.P, r, "C01.3", fs)
+	noPackageState(c.P, r, fs)
 }
 
 func runC03(r *oblig.Report) {
@@ -133,6 +138,9 @@ func runC03(r *oblig.Report) {
 	e5path.StackDiscipline(c.P, r, "C03.4", fs)
 	r.Rule("C03.5", "path-enumeration", "ParseExpression builds an operator node only around two or more operands; a single operand is handed back as it is (redundant parentheses change nothing)", 1)
 	e5path.SingleOperandUnwrapped(c.P, r, "C03.5")
+	r.Rule("C03.6", "path-enumeration", "what the opening callback of a parenthesised group saves of the enclosing level is put back, all of it, when the group closes, and the enclosing level's operands are only moved back", 1)
+	e5path.GroupFrames(c.P, r, "C03.6")
 	w.LayoutVocabulary(r, "R8.8")
 	w.LayoutExemplars(r, "R8.9")
+	noPackageState(c.P, r, fs)
 }
